@@ -198,7 +198,7 @@ def plan(ctx):
         if ctx.quick:
             shapes = p0 + p1 + fam.select(p2, 100, ctx.seed, name)
         else:
-            shapes = p0 + p1 + fam.select(p2, 3000, ctx.seed, name) + fam.select(fam.prop(3), 800, ctx.seed, name)
+            shapes = p0 + p1 + fam.select(p2, 1200, ctx.seed, name) + fam.select(fam.prop(3), 300, ctx.seed, name)
         # split per logic into chunks for load balance
         n = 4 if ctx.quick else 16
         if ctx.quick:
@@ -264,7 +264,7 @@ def run(ctx):
                                argument='structural induction: every compound shape over letters terminates and '
                                         'rule output is uniform in the operands (concrete runs, not solver-decided)'),
         bounds=dict(family='P(0), P(1) complete, 100 of P(2) per logic by seed, 342 depth-1 pairs (default options)' if ctx.quick
-                    else 'P(0), P(1) complete, 3000 of P(2) and 800 of P(3) per logic by seed',
+                    else 'P(0), P(1) complete, 1200 of P(2) and 300 of P(3) per logic by seed',
                     letters='<= 3', premises='<= 2', options='both optimisation flags symbolic (4 paths) on P(0), P(1) (thorough: everywhere); default otherwise',
                     order_seed=ctx.seed),
         solver=stats.asdict(),
